@@ -269,7 +269,7 @@ def candidates(world, viol):
     }
     params = world.get("params", {})
     for key in sorted(params):
-        if key in ("active_set_tau", "scaling", "scaling_primal", "scaling_dual", "display_interval"):
+        if key in ("active_set_tau", "scaling", "scaling_primal", "scaling_dual", "display_interval", "iteration_limit", "time_limit"):
             continue
         w = copy.deepcopy(world)
         for k in groups.get(key, (key,)):
@@ -484,6 +484,7 @@ def check_property(mod, tier, seed, n_worlds=None, wall_budget=None, verbose=Tru
         rng = rng_for(seed, mod.ID, i)
         worlds.append(mod.generate(rng, seed, i, tier))
     out = run_batch(mod, worlds, limit=limit, deadline=t0 + budget)
+    print("batch finished after %.1fs" % (time.time() - t0), flush=True)
     rc = 0
     # sanity gates: lost seams / vacuous batches are harness failures, not passes
     msgs = []
@@ -516,7 +517,7 @@ def check_property(mod, tier, seed, n_worlds=None, wall_budget=None, verbose=Tru
             if verbose:
                 print("violation sig=%s detail=%s (world index %s); shrinking..." % (v["sig"], v.get("detail"), w.get("index")), flush=True)
             try:
-                sw, sv, steps, tried = shrink(mod.case, w, v, budget=cfg.get("shrink_budget", 120), limit=limit)
+                sw, sv, steps, tried = shrink(mod.case, w, v, budget=cfg.get("shrink_budget", 120), limit=min(limit, cfg.get("shrink_limit", 25.0)), wall=cfg.get("shrink_wall", 90.0))
             except Exception as e:  # noqa
                 sw, sv, steps, tried = w, v, ["shrink failed: %r" % (e,)], 0
             path = write_replay(mod.ID, sw, sv, steps, "%s-%d" % (world_key(sw)[:8], len(seen)))
